@@ -101,7 +101,26 @@ fn two_pow(k: u32) -> f64 {
     2f64.powi(k as i32)
 }
 
+/// Width and float edges every integer-typed kwarg is tried with (ArgFromValue table): the ends of
+/// every 64/128-bit representation, +-0.0, +-inf, the smallest subnormal and normal floats.
+fn width_edges() -> Vec<Value> {
+    vec![
+        Value::from(i128::MIN), Value::from(i128::MAX), Value::from(i128::MAX as u128 + 1), Value::from(u128::MAX),
+        Value::from(u64::MAX), Value::from(i64::MIN), Value::from(i64::MAX), Value::from(0.0f64), Value::from(-0.0f64),
+        Value::from(f64::INFINITY), Value::from(f64::NEG_INFINITY), Value::from(f64::from_bits(1)),
+        Value::from(f64::MIN_POSITIVE), Value::from(-f64::from_bits(1)), Value::from(f64::MAX),
+    ]
+}
+
 fn good_values(k: &Kw) -> Vec<Value> {
+    let mut v = good_values_base(k);
+    if matches!(k.kind, AK::Usize | AK::U32 | AK::I32 | AK::I128) {
+        v.extend(width_edges());
+    }
+    v
+}
+
+fn good_values_base(k: &Kw) -> Vec<Value> {
     match k.kind {
         AK::Str => k.good_str.iter().map(|s| Value::from(*s)).collect(),
         AK::Bool => vec![Value::from(true), Value::from(false)],
@@ -206,7 +225,19 @@ fn receivers() -> Vec<Value> {
     ]));
     v.push(Value::bytes(Vec::<u8>::new()));
     v.push(Value::bytes(b"abc".to_vec()));
+    v.push(Value::from(f64::from_bits(1)));
+    v.push(Value::from(f64::MIN_POSITIVE));
+    v.push(Value::from(-f64::from_bits(1)));
+    v.push(Value::from(i64::MAX));
+    v.push(Value::from(i128::MAX - 1));
     v
+}
+
+/// Receivers appended after `receivers()`: one string per UTF-8 lead byte ("x", first and last
+/// scalar value of that lead byte, "y") — 4 characters, 6 to 10 bytes each. They meet every
+/// built-in with no kwargs and the string built-ins with receiver-specific kwargs (`focus_cells`).
+fn lead_byte_receivers() -> Vec<Value> {
+    pools::utf8_lead_byte_strings().iter().map(|s| Value::from(s.as_str())).collect()
 }
 
 type Shape = Vec<(&'static str, Value)>;
@@ -502,7 +533,70 @@ fn kind_tag(v: &Value) -> &'static str {
     v.name()
 }
 
+/// Cells that are compared with the model in BOTH tiers whatever the sampler draws: the type-test
+/// partition on every receiver, and the string built-ins on multi-byte receivers where a byte
+/// count used for a character count (or the reverse) shows.
+fn focus_cells(recvs: &[Value], lb_start: usize, has: &dyn Fn(BK, &str) -> bool) -> Vec<Cell> {
+    let mut out = Vec::new();
+    let push = |out: &mut Vec<Cell>, bk: BK, name: &str, ri: usize, sh: Shape| {
+        if has(bk, name) {
+            out.push(Cell { bk, name: name.to_string(), ri, sh, focus: true });
+        }
+    };
+    for (ri, r) in recvs.iter().enumerate() {
+        let Some(s) = r.as_str() else { continue };
+        if s.is_ascii() && !s.is_empty() && s != "hello world" {
+            continue;
+        }
+        let chars: Vec<char> = s.chars().collect();
+        // truncate at every length 0..=chars+2, default / empty / multi-byte end marker
+        for n in 0..=(chars.len() as u64 + 2) {
+            push(&mut out, BK::Filter, "truncate", ri, vec![("length", Value::from(n))]);
+            if (ri >= lb_start && (3..=5).contains(&n)) || (ri < lb_start && n % 2 == 0) {
+                push(&mut out, BK::Filter, "truncate", ri, vec![("length", Value::from(n)), ("end", Value::from(""))]);
+                push(&mut out, BK::Filter, "truncate", ri, vec![("length", Value::from(n)), ("end", Value::from("é>"))]);
+            }
+        }
+        // a length between the character count and the byte count, in other representations
+        if s.len() > chars.len() {
+            let mid = (chars.len() + s.len()) / 2;
+            for v in [Value::from(mid as i64), Value::from(mid as u128), Value::from(mid as f64), Value::from(s.len() as u64 - 1), Value::from(chars.len() as i128)] {
+                push(&mut out, BK::Filter, "truncate", ri, vec![("length", v)]);
+            }
+        }
+        if ri < lb_start || chars.len() != 4 {
+            continue;
+        }
+        // receiver-specific patterns: the ASCII ends, the multi-byte middle, mixed
+        let pats: Vec<String> = vec![
+            chars[1].to_string(),
+            chars[1..3].iter().collect(),
+            chars[2..].iter().collect(),
+            chars[..2].iter().collect(),
+        ];
+        for p in &pats {
+            for name in ["trim", "trim_start", "trim_end", "split"] {
+                push(&mut out, BK::Filter, name, ri, vec![("pat", Value::from(p.as_str()))]);
+            }
+            for name in ["starting_with", "ending_with", "containing"] {
+                push(&mut out, BK::Test, name, ri, vec![("pat", Value::from(p.as_str()))]);
+            }
+        }
+        push(&mut out, BK::Filter, "split", ri, vec![("pat", Value::from(""))]);
+        push(&mut out, BK::Filter, "replace", ri, vec![("from", Value::from(pats[0].as_str())), ("to", Value::from(""))]);
+        push(&mut out, BK::Filter, "replace", ri, vec![("from", Value::from(pats[1].as_str())), ("to", Value::from("é"))]);
+        push(&mut out, BK::Filter, "replace", ri, vec![("from", Value::from("")), ("to", Value::from(pats[0].as_str()))]);
+        for w in [0u64, 1, 3] {
+            push(&mut out, BK::Filter, "indent", ri, vec![("width", Value::from(w)), ("first", Value::from(true))]);
+        }
+        push(&mut out, BK::Filter, "pluralize", ri, vec![("plural", Value::from(pats[1].as_str()))]);
+    }
+    // nth / first / last / join / reverse / length on arrays of multi-byte strings
+    out
+}
+
 struct Cell {
+    focus: bool,
     bk: BK,
     name: String,
     ri: usize,
@@ -617,6 +711,55 @@ fn range_law(sh: &Shape, o: &Outcome<Value>) -> Option<(&'static str, String)> {
     }
 }
 
+/// `truncate` law on the implementation, counted in characters: at most `length` characters are
+/// kept and the end marker is appended exactly when something was cut.
+fn truncate_law(recv: &Value, sh: &Shape, o: &Outcome<Value>) -> Option<String> {
+    let s = recv.as_str()?;
+    let mut length: Option<usize> = None;
+    let mut end = "…".to_string();
+    for (k, v) in sh {
+        match *k {
+            "length" => length = Some(usize::try_from(v.clone()).ok()?),
+            "end" => end = v.as_str()?.to_string(),
+            _ => {}
+        }
+    }
+    let length = length?;
+    let n = s.chars().count();
+    let expected: String = if n <= length { s.to_string() } else { s.chars().take(length).collect::<String>() + &end };
+    match o {
+        Outcome::Ok(v) if v.as_str() == Some(expected.as_str()) => None,
+        Outcome::Ok(v) => Some(format!(
+            "truncate(length={length}) of a {n}-character / {}-byte string returned {v:?}, expected {expected:?}",
+            s.len()
+        )),
+        Outcome::Err(_, m) => Some(format!("truncate with valid arguments failed: {m}")),
+        Outcome::Panic(_) => None,
+    }
+}
+
+/// What each kind test must answer, from the kind of the receiver alone (documentation:
+/// `number` = integer or float, `integer` = any integer width, `iterable` = map/array/string/bytes).
+fn type_test_expected(name: &str, v: &Value) -> Option<bool> {
+    use tera::value::ValueKind as K;
+    let k = v.kind();
+    let int = matches!(k, K::U64 | K::I64 | K::U128 | K::I128);
+    Some(match name {
+        "string" => k == K::String,
+        "number" => int || k == K::F64,
+        "integer" => int,
+        "float" => k == K::F64,
+        "map" => k == K::Map,
+        "bool" => k == K::Bool,
+        "array" => k == K::Array,
+        "none" => k == K::None,
+        "iterable" => matches!(k, K::Map | K::Array | K::String | K::Bytes),
+        "defined" => k != K::Undefined,
+        "undefined" => k == K::Undefined,
+        _ => return None,
+    })
+}
+
 /// Known-finding class of a cell (used when model and implementation disagree on it): `range`
 /// arguments on which the checked length computation of functions.rs overflows.
 fn cell_kf(c: &Cell) -> Option<&'static str> {
@@ -651,6 +794,10 @@ fn bump(counts: &mut BTreeMap<String, usize>, key: &str) -> bool {
     *n += 1;
     *n <= 20
 }
+
+/// filters whose result depends on the characters of a string receiver
+const STRINGISH: &[&str] = &["safe", "upper", "lower", "wordcount", "escape_html", "escape_xml", "newlines_to_br", "trim",
+    "trim_start", "trim_end", "capitalize", "title", "indent", "str", "int", "length", "reverse", "pluralize"];
 
 const ARITH: &[&str] = &["range", "abs", "int", "float", "round", "odd", "even", "divisible_by", "nth", "truncate", "indent", "pluralize", "length"];
 
@@ -688,7 +835,9 @@ fn main() {
             std::process::exit(3);
         }
     };
-    let recvs = receivers();
+    let mut recvs = receivers();
+    let lb_start = recvs.len();
+    recvs.extend(lead_byte_receivers());
 
     if let Some(rp) = &args.replay {
         let r: serde_json::Value = serde_json::from_str(&std::fs::read_to_string(rp).expect("replay file")).expect("json");
@@ -729,16 +878,32 @@ fn main() {
             };
             if bk == BK::Function {
                 for sh in shs {
-                    cells.push(Cell { bk, name: name.clone(), ri: 1, sh });
+                    cells.push(Cell { bk, name: name.clone(), ri: 1, sh, focus: false });
                 }
             } else {
                 for sh in &shs {
                     for ri in 0..recvs.len() {
-                        cells.push(Cell { bk, name: name.clone(), ri, sh: sh.clone() });
+                        // the lead-byte strings meet every built-in without kwargs only (plus focus_cells)
+                        if ri >= lb_start && !sh.is_empty() {
+                            continue;
+                        }
+                        // the type tests on every receiver, and every built-in on the lead-byte strings
+                        let focus = sh.is_empty()
+                            && ((bk == BK::Test && ri < lb_start + 3)
+                                || (bk == BK::Filter && ri >= lb_start && STRINGISH.contains(&name.as_str())));
+                        cells.push(Cell { bk, name: name.clone(), ri, sh: sh.clone(), focus });
                     }
                 }
             }
         }
+    }
+
+    {
+        let has = |bk: BK, name: &str| -> bool {
+            let names = match bk { BK::Filter => &filters, BK::Test => &tests, BK::Function => &functions };
+            names.iter().any(|n| n == name) && !(arith_child && !ARITH.contains(&name))
+        };
+        cells.extend(focus_cells(&recvs, lb_start, &has));
     }
 
     if arith_child {
@@ -779,7 +944,7 @@ fn main() {
     let mut n_oracle_only_nontrivial = 0usize;
     let mut n_modelled_eligible = 0usize;
     let mut pending: Vec<(usize, String, serde_json::Value, bool, Vec<String>)> = Vec::new();
-    let quick_target = 4000usize;
+    let quick_fill = 300usize;
     // known-finding classes are reported 20 times each at most (all are counted), so that they
     // cannot crowd a new failure out of the bounded failure list
     let mut kf_counts: BTreeMap<String, usize> = BTreeMap::new();
@@ -826,6 +991,34 @@ fn main() {
                 meta.oracle_fail(&format!("range: {what}"), Some(kf), cell_desc(c, recv, &o));
             }
         }
+        if c.bk == BK::Filter && c.name == "truncate" {
+            meta.oracle_checks += 1;
+            if let Some(what) = truncate_law(recv, &c.sh, &o) {
+                if bump(&mut kf_counts, "law:truncate") {
+                    meta.oracle_fail(&what, None, cell_desc(c, recv, &o));
+                }
+            }
+        }
+        if c.bk == BK::Test {
+            // kwargs are ignored by the kind tests, so the law applies to every shape
+            if let Some(exp) = type_test_expected(&c.name, recv) {
+                meta.oracle_checks += 1;
+                let got = match &o { Outcome::Ok(v) => v.as_bool(), _ => None };
+                if got != Some(exp) && bump(&mut kf_counts, "law:type-test") {
+                    meta.oracle_fail(
+                        &format!("type test `{}` on a value of kind {} answered {:?}, expected {exp} (integer xor float iff number, defined iff not undefined)", c.name, recv.name(), got),
+                        None, cell_desc(c, recv, &o));
+                }
+            }
+        }
+        if c.bk == BK::Filter && c.name == "length" {
+            if let (Some(s), Outcome::Ok(v)) = (recv.as_str(), &o) {
+                meta.oracle_checks += 1;
+                if v.as_u64() != Some(s.chars().count() as u64) && bump(&mut kf_counts, "law:length") {
+                    meta.oracle_fail("length of a string is not its number of characters", None, cell_desc(c, recv, &o));
+                }
+            }
+        }
         if c.bk == BK::Filter && c.name == "round" {
             // conversions agree with exact arithmetic or fail: a finite number must not round to NaN/inf
             if let (Outcome::Ok(v), Ok(x)) = (&o, f64::try_from(recv.clone())) {
@@ -857,7 +1050,7 @@ fn main() {
         let fresh = strata.insert(s1) | strata.insert(s2);
         let tags = vec![format!("class:{cls}"), format!("kind:{:?}", c.bk)];
         let drawn = thorough && model_cap.map_or(true, |cap| rng.chance(cap as u64, n_cells as u64));
-        if drawn || fresh {
+        if drawn || fresh || c.focus {
             per_builtin.entry(key).or_default()[2] += 1;
             let kf = cell_kf(c);
             sink.push(cell_gallina(c, recv, &o), cell_desc(c, recv, &o), nontrivial, kf, &tags.iter().map(|s| s.as_str()).collect::<Vec<_>>());
@@ -865,10 +1058,10 @@ fn main() {
             pending.push((ci, key, json!(null), nontrivial, tags));
         }
     }
-    // quick tier: fill the sample up to the target with uniformly drawn remaining cells
-    if !thorough && sink.count < quick_target && !pending.is_empty() {
-        let want = quick_target - sink.count;
-        let p_num = want as u64;
+    // quick tier: besides the strata and the focus cells, a uniform draw of `quick_fill` of the
+    // remaining modelled cells; whatever is not sent to the model stays implementation-side only
+    {
+        let p_num = if thorough { 0 } else { quick_fill as u64 };
         let p_den = pending.len() as u64;
         for (ci, key, _, nontrivial, tags) in pending {
             if !rng.chance(p_num, p_den.max(1)) {
